@@ -37,7 +37,8 @@ pub struct Cfg {
     #[serde(default)]
     pub inherit: bool,
     /// session variant: 0 = base; 1 = FDT carousel by start-time interval, RFC 3926 profile, no SCT in
-    /// the FDT packets; 2 = FDT instance ids wrapping (start id 0xFFFFE), 16-bit TOIs starting at 65534
+    /// the FDT packets; 2 = FDT instance ids wrapping (start id 0xFFFFE), 16-bit TOIs starting at 65534;
+    /// 3 = FDT duration 20 s in a session of 32 s, joins enumerated in the cycle at 24 s (the first instance has expired)
     #[serde(default)]
     pub sess_var: u8,
 }
@@ -53,6 +54,8 @@ pub struct Prepared {
     /// index of the first packet of each cycle (poll)
     pub cycle_start: Vec<usize>,
     pub contents: Vec<(u128, Vec<u8>)>,
+    /// index of the cycle the joins are enumerated in (0, or a cycle after the first FDT instance expired)
+    pub base: usize,
 }
 
 const POLLS: [u64; 4] = [0, 2000, 4000, 6000];
@@ -96,17 +99,21 @@ pub fn prepare(c: &Cfg) -> Result<Prepared, String> {
             s.toi_bits = 16;
             s.toi_init = Some("65534".into());
         }
+        3 => {
+            s.fdt_duration_s = 20;
+        }
         _ => {}
     }
-    let spec = RecSpec { sess: s, objs: objs.clone(), polls_ms: POLLS.to_vec() };
+    let (polls, base): (Vec<u64>, usize) = if c.sess_var == 3 { ((0..=16u64).map(|i| i * 2000).collect(), 12) } else { (POLLS.to_vec(), 0) };
+    let spec = RecSpec { sess: s, objs: objs.clone(), polls_ms: polls.clone() };
     let rec = record(&spec)?;
     let mut cycle_start = Vec::new();
-    for ms in POLLS {
+    for ms in polls {
         let t = at_ms(ms);
         cycle_start.push(rec.pkts.iter().position(|p| p.0 == t).ok_or(format!("no packet at poll {}", ms))?);
     }
     let contents = rec.objs.iter().map(|(toi, i, _)| (*toi, objs[*i].content())).collect();
-    Ok(Prepared { rec, cycle_start, contents })
+    Ok(Prepared { rec, cycle_start, contents, base })
 }
 
 #[derive(Default, Clone)]
@@ -119,7 +126,7 @@ pub struct G {
 
 pub fn run_join(p: &Prepared, c: &Cfg, join: usize, g: &mut G) -> Option<(String, String)> {
     g.joins += 1;
-    let end = p.cycle_start[3]; // end of the second full cycle after cycle 0
+    let end = p.cycle_start[p.base + 3]; // end of the second full cycle after the cycle of the join
     let seq: Vec<(SystemTime, &[u8])> = (join..end).map(|i| (p.rec.pkts[i].0 + Duration::from_millis(0), &p.rec.pkts[i].1[..])).collect();
     // classify the join point
     if join > 0 && join < p.rec.pkts.len() {
@@ -144,7 +151,7 @@ pub fn run_join(p: &Prepared, c: &Cfg, join: usize, g: &mut G) -> Option<(String
         if !ok {
             let where_ = {
                 let i = &p.rec.info[join.min(p.rec.info.len() - 1)];
-                if join == 0 {
+                if join == p.cycle_start[p.base] {
                     "at the first packet".to_string()
                 } else if i.toi == 0 {
                     format!("before a packet of FDT instance {:?}", i.fdt_id)
@@ -156,7 +163,7 @@ pub fn run_join(p: &Prepared, c: &Cfg, join: usize, g: &mut G) -> Option<(String
             let cls = format!("{}{}{}", if content.is_empty() { "/empty-object" } else { "" }, if c.inband { "/inband" } else { "/fdt-only" }, if c.full_fdt { "" } else { "/obt" });
             return Some((
                 format!("C16/not-delivered-within-two-cycles{}", cls),
-                format!("{:?} {} object(s): joining {} (offset {} of cycle 0), object TOI {} ({} bytes) has no complete byte-exact delivery after two further full cycles; writer logs {:?}", c.scheme, c.nobj, where_, join, toi, content.len(), logs),
+                format!("{:?} {} object(s): joining {} (packet index {} of the recorded session), object TOI {} ({} bytes) has no complete byte-exact delivery after two further full cycles; writer logs {:?}", c.scheme, c.nobj, where_, join, toi, content.len(), logs),
             ));
         }
     }
@@ -192,7 +199,7 @@ pub fn configs(thorough: bool) -> Vec<Cfg> {
                                         }
                                         v.push(Cfg { scheme, nobj, inband, cenc, interval, full_fdt, fdt_e, with_empty, count, interleave, fdt_cenc: 0, split_sig: false, inherit: false, sess_var: 0 });
                                         if count == 1 && interleave == 1 && fdt_e == 1424 {
-                                            for sess_var in [1u8, 2] {
+                                            for sess_var in [1u8, 2, 3] {
                                                 v.push(Cfg { scheme, nobj, inband, cenc, interval, full_fdt, fdt_e, with_empty, count, interleave, fdt_cenc: 0, split_sig: false, inherit: false, sess_var });
                                             }
                                         }
@@ -231,8 +238,8 @@ pub fn run(thorough: bool) -> i32 {
                 Ok(p) => p,
                 Err(e) => return (g, found, Some(e), 0usize),
             };
-            let n0 = p.cycle_start[1];
-            for join in 0..=n0 {
+            let n0 = p.cycle_start[p.base + 1] - p.cycle_start[p.base];
+            for join in p.cycle_start[p.base]..=p.cycle_start[p.base + 1] {
                 if let Some((k, w)) = run_join(&p, c, join, &mut g) {
                     if !found.iter().any(|f| f.0 == k) {
                         found.push((k, w, join));
